@@ -32,8 +32,10 @@ ExtTol == (IF R.l * R.bg <= 31 THEN (R.kk * N + 1) * 2^(32 - R.l * R.bg) ELSE 0)
 ExtWant(u) == LET ps == R.pos[u] w == Wd(R.pc[u]) wrap == IF ps - R.j < 0 THEN -1 ELSE 1 IN IF R.sgn * wrap = 1 THEN w ELSE WNeg(w)
 RowExtFull == /\ R.l * R.bg <= 32 /\ R.l * R.bg >= 16 /\ R.bg <= 16 /\ (R.kk + 1) * R.l <= 16                 \* (the tolerance stays below 2^29 for the layouts used)
               /\ \A u \in 1..Len(R.pos) : WAbsLeq(WSub(Wd(R.pr[u]), ExtWant(u)), WOfInt(ExtTol))
-\* ---- full size with real generated keys: same rule on the rounded phase; the output carries bootstrapping noise (configured at 1e-9 / 1e-8, amplified by
-\* the gadget digits) instead of being exact: accepted within 2^26 units (1/64 of the torus; mu is at least 2^28 away from -mu) ----
+\* ---- full size with real generated keys (uniform masks; bootstrapping-key noise configured far below one unit, key-switching noise 1e-8): the same rule on
+\* the rounded phase.  What the output carries is FFT rounding of the key rows amplified by the gadget digits (standard deviation about 2^22 units for
+\* Bgbit = 16 and eight steps), the flooring of the decomposition (layouts with l*Bgbit >= 21 only: at most n*(kN+1)*2^(32-l*Bgbit) <= 2^24.4) and the
+\* key switch: accepted within 2^26 units (>= 16 standard deviations; 1/64 of the torus, mu is at least 2^28 away from -mu) ----
 RowReal == WAbsLeq(WSub(R.ph, IF P < N THEN R.mu ELSE WNeg(R.mu)), WOfInt(67108864))
 RowOK == CASE R.k = "full" -> RowFull [] R.k = "extfull" -> RowExtFull [] R.k = "real" -> RowReal [] OTHER -> FALSE
 =============================================================================
